@@ -9,23 +9,25 @@ KnownIds == {"C08-KF1", "C08-KF4"}
 (* C08-KF1 (the C07-KF11 defect seen by concurrent users): the five-level ThreadLocalPool hands out  *)
 (* offsets relative to the arena of the CALLING thread in the one MemOffset space of the pool, so   *)
 (* two threads hold the same MemOffset at the same time.  Guard: subject family tl5 only; an        *)
-(* allocation whose offset is owned by a DIFFERENT thread and is not yet held by this thread, or     *)
+(* allocation whose offset range shares bytes only with blocks of DIFFERENT threads, or              *)
 (* the free of such an extra holding by the thread that got it.  A second holding by the same       *)
 (* thread, a free by a thread that holds nothing, counters and the drain stay under the contract.   *)
 G1(e, subj) ==
     /\ subj.fam = "tl5"
     /\ \/ /\ e.op = "alloc" /\ e.ok
-          /\ e.addr \in DOMAIN owner /\ owner[e.addr] /= e.t /\ <<e.addr, e.t>> \notin shared
+          /\ Conflicts(<<e.pos[1], e.pos[2], e.len>>) /= {}
+          /\ \A x \in Conflicts(<<e.pos[1], e.pos[2], e.len>>) : owner[x] /= e.t
+          /\ <<e.addr, e.t>> \notin shared
        \/ /\ e.op = "free_start" /\ <<e.addr, e.t>> \in shared
           /\ ~(e.addr \in DOMAIN owner /\ owner[e.addr] = e.t)
 KF1(e, subj) ==
     IF e.op = "alloc"
     THEN /\ shared' = shared \cup {<<e.addr, e.t>>}
          /\ cnt' = [cnt EXCEPT !.na = @ + 1]
-         /\ UNCHANGED <<owner, seen, nodes, big>>
+         /\ UNCHANGED <<owner, seen, nodes, big, ext>>
     ELSE /\ shared' = shared \ {<<e.addr, e.t>>}
          /\ cnt' = [cnt EXCEPT !.nf = @ + 1]
-         /\ UNCHANGED <<owner, seen, nodes, big>>
+         /\ UNCHANGED <<owner, seen, nodes, big, ext>>
 
 
 Without(c, f) == [x \in DOMAIN c \ {f} |-> c[x]]
